@@ -8,7 +8,7 @@ from z3 import (And, BoolVal, Const, Consts, Exists, ForAll, Function, If, Impli
 from pyvc.core import LoopSpec, V
 from pyvc.heap import (B, I, NONE, R, ASeq, WF, alloc_mono, ch_equal_except, fresh, ghost_equal, isl, isn, log_equal,
                        par_equal, view_equal, wf)
-from pyvc.heapworld import HOOK_ID, Clause, Family, Outcome, Spec, seqobj
+from pyvc.heapworld import HOOK_ID, Clause, Family, Outcome, Spec, iterable, itat, itlen, seqobj
 
 x, y, a, b = Consts("x y a b", R)
 i, j = Int("i"), Int("j")
@@ -410,6 +410,291 @@ def build(fam):
     ]
     fam.add(Spec(fam, "parent", "setter", [("self", "ref"), ("value", "ref")], ps_req, ps_outcomes,
                  props={"C01", "C02"}))
+    # ------------------------------------------------------------------ __check_children (static)
+    def cc_bad(c):
+        xs = c.args["children"].t
+        k, l = Int("k"), Int("l")
+        dup = Exists([k, l], And(in_range(k, xs.n), in_range(l, xs.n), k != l, xs.a[k] == xs.a[l]))
+        if fam.typecheck:
+            return Or(Exists([k], And(in_range(k, xs.n), Not(isn(xs.a[k])))), dup)
+        return dup
+
+    def cc_inv(L):
+        xs = L.fn.args["children"].t
+        seen = L.t("seen")
+        k, l = Int("k"), Int("l")
+        cl = [("seen-are-the-visited", ForAll([x], seen[x] == Exists([k], And(in_range(k, L.i), xs.a[k] == x)))),
+              ("visited-distinct", ForAll([k, l], Implies(And(in_range(k, L.i), in_range(l, L.i), k != l),
+                                                          xs.a[k] != xs.a[l])))]
+        if fam.typecheck:
+            cl.append(("visited-are-nodes", ForAll([k], Implies(in_range(k, L.i), isn(xs.a[k])))))
+        return cl
+    fam.add(Spec(fam, fam.attr("__check_children"), "static", [("children", "aseq")], lambda c: [], [
+        Outcome("return", "return", lambda c, S1, r: [], when=lambda c: Not(cc_bad(c)), mods=()),
+        Outcome("TreeError", "raise", lambda c, S1, r: [], exc="TreeError", when=cc_bad, mods=()),
+    ], loops={0: LoopSpec(cc_inv, mods=(), vars_kinds={"seen": "idset"})}, props={"C02"}))
+
+    # ------------------------------------------------------------------ children deleter
+    PRE_D, POST_D = HOOK_ID["_pre_detach"], HOOK_ID["_post_detach"]
+
+    def detached_prefix(S, S0, n, k, props=("C02",)):
+        """the first k children of n (entry state S0) are roots now, the others are still n's children in order,
+        nothing else has changed"""
+        m = S0.cl(n)
+        return [
+            Clause("del/first-k-are-roots", ForAll([j], Implies(in_range(j, k), S.par(S0.ca(n, j)) == NONE)), props),
+            Clause("del/rest-len", S.cl(n) == m - k, props),
+            Clause("del/rest-in-order", ForAll([j], Implies(in_range(j, m - k), S.ca(n, j) == S0.ca(n, j + k))), props),
+            Clause("del/other-parents", ForAll([x], Implies(And(isn(x), S0.par(x) != n), S.par(x) == S0.par(x))), props),
+            Clause("del/other-children", ch_equal_except(S, S0, [n]), props),
+            # stepping stones for the solver (consequences of the clauses above and WF)
+            Clause("del/kept-children-positions", ForAll([j], Implies(And(k <= j, j < m), And(S.par(S0.ca(n, j)) == n,
+                                                                                             S.idx(S0.ca(n, j)) == j - k)))),
+            Clause("del/ancestors-of-self-unchanged", ForAll([a], S.A(a, n) == S0.A(a, n))),
+            Clause("del/ancestry-only-shrinks", ForAll([a, x], Implies(S.A(a, x), S0.A(a, x)))),
+        ]
+
+    def del_log(S, S0, n, k, extra=0):
+        """log = log0 ++ [pre_detach_children] ++ [pre_detach(c_j, n), post_detach(c_j, n) for j < k]"""
+        L0 = S0.loglen
+        return [
+            Clause("log/len", S.loglen == L0 + 1 + 2 * k + extra, {"C16"}),
+            Clause("log/prefix", ForAll([j], Implies(in_range(j, L0), And(S.logk[j] == S0.logk[j], S.logr[j] == S0.logr[j],
+                                                                         S.loga[j] == S0.loga[j]))), {"C16"}),
+            Clause("log/pre_detach_children-first", And(S.logk[L0] == HOOK_ID["_pre_detach_children"], S.logr[L0] == n), {"C16"}),
+            Clause("log/per-child-events-in-order", ForAll([j], Implies(in_range(j, k), And(
+                S.logk[L0 + 1 + 2 * j] == PRE_D, S.logr[L0 + 1 + 2 * j] == S0.ca(n, j), S.loga[L0 + 1 + 2 * j] == n,
+                S.logk[L0 + 2 + 2 * j] == POST_D, S.logr[L0 + 2 + 2 * j] == S0.ca(n, j), S.loga[L0 + 2 + 2 * j] == n))), {"C16"}),
+        ]
+
+    def del_inv(L):
+        c = L.fn
+        cls = detached_prefix(L.S, c.S0, c.self, L.i) + WFc(L.S) + del_log(L.S, c.S0, c.self, L.i) + \
+            [Clause("alloc-mono", alloc_mono(L.S, c.S0))]
+        return [(cl.name, cl.f) for cl in cls]
+
+    def del_hookobs_pre(c, S, recv, arg):
+        s = arg.t
+        return [Clause("receiver", recv.t == c.self),
+                Clause("argument-is-the-children-tuple", And(s.n == c.S0.cl(c.self),
+                                                             ForAll([j], Implies(in_range(j, s.n), s.a[j] == c.S0.ca(c.self, j))))),
+                Clause("state-as-before", view_equal(S, c.S0))]
+
+    def del_hookobs_post(c, S, recv, arg):
+        s = arg.t
+        return [Clause("receiver", recv.t == c.self),
+                Clause("argument-is-the-former-children-tuple", And(s.n == c.S0.cl(c.self),
+                                                                    ForAll([j], Implies(in_range(j, s.n), s.a[j] == c.S0.ca(c.self, j))))),
+                ] + detached_prefix(S, c.S0, c.self, c.S0.cl(c.self), {"C16"})
+
+    def del_post(c, S1, r):
+        S0, n = c.S0, c.self
+        m = S0.cl(n)
+        return (detached_prefix(S1, S0, n, m) + WFc(S1) + del_log(S1, S0, n, m, extra=1) +
+                [Clause("log/post_detach_children-last", And(S1.logk[S1.loglen - 1] == HOOK_ID["_post_detach_children"],
+                                                             S1.logr[S1.loglen - 1] == n), {"C16"}),
+                 Clause("alloc-mono", alloc_mono(S1, S0))])
+
+    def del_exit_pre_children(c, S1, r):
+        return unchanged(S1, c.S0, {"C03"}) + WFc(S1) + [Clause("ghost", ghost_equal(S1, c.S0)),
+                                                        Clause("alloc-mono", alloc_mono(S1, c.S0))]
+
+    def del_exit_pre_detach(c, S1, r):
+        # C03: untouched.  Known finding KF2: when the veto comes from a later child (k >= 1) the first k former
+        # children have already been detached.
+        S0, n, k = c.S0, c.self, r.t
+        kf = unchanged(S1, S0, {"C03"})
+        for cl in kf:
+            cl.kf = ("KF2", k >= 1)
+        return ([Clause("witness-in-range", in_range(k, S0.cl(n)))] + kf + detached_prefix(S1, S0, n, k) + WFc(S1) +
+                [Clause("alloc-mono", alloc_mono(S1, S0))])
+
+    def del_exit_post_detach(c, S1, r):
+        S0, n, k = c.S0, c.self, r.t
+        return ([Clause("witness-in-range", in_range(k, S0.cl(n)))] + detached_prefix(S1, S0, n, k + 1) + WFc(S1) +
+                [Clause("alloc-mono", alloc_mono(S1, S0))])
+
+    def del_exit_post_children(c, S1, r):
+        S0, n = c.S0, c.self
+        return detached_prefix(S1, S0, n, S0.cl(n)) + WFc(S1) + [Clause("alloc-mono", alloc_mono(S1, S0))]
+
+    fam.add(Spec(fam, "children", "deleter", [("self", "ref")], base_req, [
+        Outcome("return", "return", del_post),
+        Outcome("pre_detach_children-raises", "raise", del_exit_pre_children, exc="UserExc",
+                site="hook:_pre_detach_children", user=True),
+        Outcome("pre_detach-raises", "raise", del_exit_pre_detach, exc="UserExc", site="hook:_pre_detach",
+                user=True, res="wit0"),
+        Outcome("post_detach-raises", "raise", del_exit_post_detach, exc="UserExc", site="hook:_post_detach",
+                user=True, res="wit0"),
+        Outcome("post_detach_children-raises", "raise", del_exit_post_children, exc="UserExc",
+                site="hook:_post_detach_children", user=True),
+    ], loops={0: LoopSpec(del_inv, mods="all")},
+        hookobs={"_pre_detach_children": del_hookobs_pre, "_post_detach_children": del_hookobs_post},
+        props={"C01", "C02"}))
+    # ------------------------------------------------------------------ children setter
+    def xs_of(c):
+        o = c.children
+        return ASeq(itlen(o), itat(o))
+
+    def same_tuple(s, t):
+        return And(s.n == t.n, ForAll([j], Implies(in_range(j, s.n), s.a[j] == t.a[j])))
+
+    def cs_type_cond(c):
+        return Not(iterable(c.children))
+
+    def cs_bad(c):
+        xs = xs_of(c)
+        k, l = Int("k"), Int("l")
+        dup = Exists([k, l], And(in_range(k, xs.n), in_range(l, xs.n), k != l, xs.a[k] == xs.a[l]))
+        if fam.typecheck:
+            return Or(Exists([k], And(in_range(k, xs.n), Not(isn(xs.a[k])))), dup)
+        return dup
+
+    def cs_tree_cond(c):
+        return And(iterable(c.children), cs_bad(c))
+
+    def cs_loopy(c, e):
+        return Or(e == c.self, c.S0.A(e, c.self))
+
+    def cs_loop_cond(c):
+        xs = xs_of(c)
+        k = Int("k")
+        return And(iterable(c.children), Not(cs_bad(c)), Exists([k], And(in_range(k, xs.n), cs_loopy(c, xs.a[k]))))
+
+    def cs_ok(c):
+        xs = xs_of(c)
+        k = Int("k")
+        return And(iterable(c.children), Not(cs_bad(c)), Not(Exists([k], And(in_range(k, xs.n), cs_loopy(c, xs.a[k])))))
+
+    def cs_req(c):
+        r = base_req(c)
+        if not fam.typecheck:
+            xs = xs_of(c)
+            r.append(Clause("children-are-nodes", Implies(iterable(c.children),
+                                                          ForAll([j], Implies(in_range(j, xs.n), isn(xs.a[j]))))))
+        return r
+
+    def not_in(xs, k, e):
+        return ForAll([j], Implies(in_range(j, k), xs.a[j] != e))
+
+    def no_steal(S_, n, xs, k):
+        """none of xs[:k] is (in state S_) the child of a node other than n"""
+        return ForAll([j], Implies(in_range(j, k), Or(S_.par(xs.a[j]) == NONE, S_.par(xs.a[j]) == n)))
+
+    def attached_prefix(S, P, n, xs, k, props=("C02",)):
+        """relative to the state P in which n has no children: xs[:k] are n's children in this order, taken away
+        from their parents in P; every other node keeps its parent, the children of other parents keep their
+        relative order"""
+        return [
+            Clause("set/children-len", S.cl(n) == k, props),
+            Clause("set/children-in-given-order", ForAll([j], Implies(in_range(j, k), S.ca(n, j) == xs.a[j])), props),
+            Clause("set/attached-point-to-self", ForAll([j], Implies(in_range(j, k), And(S.par(xs.a[j]) == n, S.idx(xs.a[j]) == j))), props),
+            Clause("set/others-keep-parent", ForAll([x], Implies(And(isn(x), not_in(xs, k, x)), S.par(x) == P.par(x))), props),
+            Clause("set/other-parents-keep-order",
+                   ForAll([x, y], Implies(And(isn(x), isn(y), S.par(x) == S.par(y), S.par(x) != NONE, S.par(x) != n),
+                                          (S.idx(x) < S.idx(y)) == (P.idx(x) < P.idx(y)))), props),
+            Clause("set/nothing-taken-from-others-then-their-children-untouched",
+                   Implies(no_steal(P, n, xs, k), ch_equal_except(S, P, [n])), props),
+            Clause("set/ancestors-of-self-unchanged", ForAll([a], S.A(a, n) == P.A(a, n))),
+        ]
+
+    def cs_inv(L):
+        c = L.fn
+        n, P, S = c.self, L.S_pre, L.S
+        xs = L.v["children"].t
+        cls = (attached_prefix(S, P, n, xs, L.i) + WFc(S) +
+               [Clause("set/no-loop-so-far", ForAll([j], Implies(in_range(j, L.i), And(xs.a[j] != n, Not(P.A(xs.a[j], n)))))),
+                Clause("alloc-mono", alloc_mono(S, P))])
+        return [(cl.name, cl.f) for cl in cls]
+
+    def set_state_rel_entry(S1, S0, n, xs, props=("C02",)):
+        """C02, complete post-state of `n.children = xs` relative to the entry state"""
+        m = xs.n
+        return [
+            Clause("set/children-len", S1.cl(n) == m, props),
+            Clause("set/children-in-given-order", ForAll([j], Implies(in_range(j, m), S1.ca(n, j) == xs.a[j])), props),
+            Clause("set/listed-point-to-self", ForAll([j], Implies(in_range(j, m), S1.par(xs.a[j]) == n)), props),
+            Clause("set/former-children-not-listed-are-roots",
+                   ForAll([x], Implies(And(isn(x), S0.par(x) == n, not_in(xs, m, x)), S1.par(x) == NONE)), props),
+            Clause("set/others-keep-parent",
+                   ForAll([x], Implies(And(isn(x), S0.par(x) != n, not_in(xs, m, x)), S1.par(x) == S0.par(x))), props),
+            Clause("set/other-parents-keep-order",
+                   ForAll([x, y], Implies(And(isn(x), isn(y), S1.par(x) == S1.par(y), S1.par(x) != NONE, S1.par(x) != n),
+                                          (S1.idx(x) < S1.idx(y)) == (S0.idx(x) < S0.idx(y)))), props),
+            Clause("set/nothing-taken-from-others-then-their-children-untouched",
+                   Implies(no_steal(S0, n, xs, m), ch_equal_except(S1, S0, [n])), props),
+            Clause("set/ancestors-of-self-unchanged", ForAll([a], S1.A(a, n) == S0.A(a, n))),
+        ]
+
+    def cs_post(c, S1, r):
+        return set_state_rel_entry(S1, c.S0, c.self, xs_of(c)) + WFc(S1) + [Clause("alloc-mono", alloc_mono(S1, c.S0))]
+
+    def cs_refused(c, S1, r):
+        return unchanged(S1, c.S0, {"C03"}) + [Clause("no-hook-called", log_equal(S1, c.S0), {"C16"})]
+
+    def cs_hookobs_pre(c, S, recv, arg):
+        S0, n = c.S0, c.self
+        return ([Clause("receiver", recv.t == n), Clause("argument-is-the-new-children-tuple", same_tuple(arg.t, xs_of(c)))] +
+                detached_prefix(S, S0, n, S0.cl(n), {"C16"}))
+
+    def cs_hookobs_post(c, S, recv, arg):
+        return ([Clause("receiver", recv.t == c.self), Clause("argument-is-the-new-children-tuple", same_tuple(arg.t, xs_of(c)))] +
+                set_state_rel_entry(S, c.S0, c.self, xs_of(c), {"C16"}))
+
+    def cs_restored(c, S1, k, stolen_upto, kfid="KF3"):
+        """exit from inside the try-block after the former children were restored.  C03: forest untouched.
+        Known finding KF3: a child named in xs before the failure that belonged to another parent is not given
+        back (it ends up a root); proved for the complement (nothing taken from another parent so far)."""
+        S0, n, xs = c.S0, c.self, xs_of(c)
+        kf = unchanged(S1, S0, {"C03"})
+        for cl in kf:
+            cl.kf = (kfid, Not(no_steal(S0, n, xs, stolen_upto)))
+        return kf + [Clause("restored/children-len", S1.cl(n) == S0.cl(n), {"C03"}),
+                     Clause("restored/children-in-order", ForAll([j], Implies(in_range(j, S0.cl(n)), S1.ca(n, j) == S0.ca(n, j))), {"C03"}),
+                     ] + WFc(S1) + [Clause("alloc-mono", alloc_mono(S1, S0))]
+
+    def cs_try_exit(label, site, upto, cls="UserExc", when=None, witness=True):
+        def f(c, S1, r):
+            xs = xs_of(c)
+            if witness:
+                k = r.t
+                pre = [Clause("witness-in-range", in_range(k, xs.n))]
+                return pre + cs_restored(c, S1, k, k + upto)
+            return cs_restored(c, S1, None, IntVal(0) if upto == 0 else xs.n)
+        return Outcome(label, "raise", f, exc=cls, site=site, user=(cls == "UserExc"), when=when,
+                       res="wit0" if witness else "none")
+
+    def cs_del_exit(label, site, post, res="none"):
+        return Outcome(label, "raise", post, exc="UserExc", site=site, user=True, res=res)
+
+    def cs_restore_failed(c, S1, r):
+        kf = unchanged(S1, c.S0, {"C03"})
+        for cl in kf:
+            cl.kf = ("KF4", BoolVal(True))
+        return kf + WFc(S1) + [Clause("alloc-mono", alloc_mono(S1, c.S0))]
+
+    fam.add(Spec(fam, "children", "setter", [("self", "ref"), ("children", "ref")], cs_req, [
+        Outcome("TypeError", "raise", cs_refused, exc="TypeError", when=cs_type_cond, mods=()),
+        Outcome("TreeError", "raise", cs_refused, exc="TreeError", when=cs_tree_cond, mods=()),
+        Outcome("return", "return", cs_post, when=cs_ok),
+        # exits of the delete phase (outside the try-block): exactly the deleter's
+        cs_del_exit("del:pre_detach_children-raises", "hook:_pre_detach_children", del_exit_pre_children),
+        cs_del_exit("del:pre_detach-raises", "hook:_pre_detach", del_exit_pre_detach, res="payload"),
+        cs_del_exit("del:post_detach-raises", "hook:_post_detach", del_exit_post_detach, res="payload"),
+        cs_del_exit("del:post_detach_children-raises", "hook:_post_detach_children", del_exit_post_children),
+        # exits from inside the try-block, former children restored, original exception re-raised
+        cs_try_exit("pre_attach_children-raises", "reraise:hook:_pre_attach_children", 0, witness=False),
+        cs_try_exit("child-pre_detach-raises", "reraise:hook:_pre_detach", 0),
+        cs_try_exit("child-post_detach-raises", "reraise:hook:_post_detach", 1),
+        cs_try_exit("child-pre_attach-raises", "reraise:hook:_pre_attach", 1),
+        cs_try_exit("child-post_attach-raises", "reraise:hook:_post_attach", 1),
+        cs_try_exit("post_attach_children-raises", "reraise:hook:_post_attach_children", 1, witness=False),
+        cs_try_exit("LoopError", "reraise:set:parent", 0, cls="LoopError", when=cs_loop_cond),
+        # the restoring assignment itself raised (KF4)
+        Outcome("restore-raises", "raise", cs_restore_failed, exc="UserExc", site="in-handler:*", user=True),
+    ], loops={0: LoopSpec(cs_inv, mods="all")},
+        hookobs={"_pre_attach_children": cs_hookobs_pre, "_post_attach_children": cs_hookobs_post},
+        props={"C01", "C02"}))
     return fam
 
 
